@@ -28,7 +28,8 @@ class Form:
     """One menu entry.  template lines use {n1..n3} new names, {e1..e3} effect ids, {p} current value."""
 
     def __init__(self, name, lines, cur=None, flags=(), bodies=0, loop=False, needs_loop=False,
-                 tier="quick", body_heads=None, gen=False):
+                 tier="quick", body_heads=None, gen=False, special=False):
+        self.special = special  # only generated when named explicitly in `only`
         self.name = name
         self.lines = [lines] if isinstance(lines, str) else list(lines)
         self.cur = cur
@@ -115,6 +116,12 @@ SIMPLE = [
     S("yield-recv", "{n1} = yield E({e1}, {p})", cur="n1", gen=True),
     S("yield-bare", "yield", gen=True, tier="thorough"),
     S("yield-from", "{n1} = yield from SUBGEN(E({e1}, {p}))", cur="n1", gen=True),
+    # C16 only: declared-only variables and maybe-undefined globals
+    S("declare", "{n1}: int", special=True),
+    S("declare-use", ["{n1}: int", "{n2} = E({e1}, {n1})"], cur="n2", special=True),
+    S("declare-tagged", ["{n1}: tag.A", "{n2} = E({e1}, {n1})"], cur="n2", special=True),
+    S("undef-read", "{n1} = E({e1}, UNDEF)", cur="n1", special=True),
+    S("late-read", "{n1} = LATER + E({e1}, {p})", cur="n1", special=True),
     S("break", "break", needs_loop=True),
     S("continue", "continue", needs_loop=True),
 ]
@@ -143,6 +150,8 @@ FORMS = {f.name: f for f in SIMPLE + COMPOUND}
 
 def _allowed(form, ctx, tier, only):
     if only is not None and form.name not in only:
+        return False
+    if form.special and only is None:
         return False
     if form.tier == "thorough" and tier != "thorough":
         return False
